@@ -105,6 +105,57 @@ def run_case(case):
                 offs=[[complex(o) for o in row] for row in (offs[:6] + offs[-2:])], left_domain=bool(left[0]) or (cfg['path'] == 'spiral' and max([float(np.max(np.abs(r_))) for r_ in offs] + [0.0]) >= dict(sinc=1e300, expm1w=1e300, log1pw=1.0, wsin=3.0)[cfg['kernel']]), regular_exact=[complex(t) for t in np.atleast_1d(first[0])])
 
 
+def run_history(case):
+    """one Limit / Residue object used repeatedly: the same point with other extra arguments, after the caller changed the
+    returned array in place, and re-entrantly (f evaluates the SAME object at another point part-way) - each result must
+    equal what separate new objects give"""
+    vlib.use_repo()
+    from numdifftools.limits import Limit, Residue
+    cls, method, path, P = case
+    mk = (lambda f, **kw: Limit(f, method=method, path=path, full_output=True, **kw)) if cls == 'Limit' else (lambda f, **kw: Residue(f, method=method, path=path, full_output=True, **kw))
+
+    def f(z, s=1.0, t=0.0):
+        with np.errstate(all='ignore'):
+            w = z - P
+            core = np.exp(0.5 * w) * s + t * w
+            return core * np.sin(w) / w if cls == 'Limit' else core / w
+    probs = []
+    try:
+        with np.errstate(all='ignore'):
+            z = np.array([P, P + 0.37]) if cls == 'Limit' else P
+            L = mk(f)
+            a1 = L(z, 2.0)
+            a2 = L(z, -0.5, t=3.0)
+            b2 = mk(f)(z, -0.5, t=3.0)
+            if np.asarray(a2[0]).tobytes() != np.asarray(b2[0]).tobytes():
+                probs.append('second call at the same point with other extra arguments returns %s, a new object %s' % (np.ravel(a2[0]).tolist(), np.ravel(b2[0]).tolist()))
+            v = L(z, 1.0)[0]
+            keep = np.array(v, copy=True)
+            if np.ndim(v):
+                v[...] = 7.0                                   # the caller owns the returned array
+            v2 = L(z, 1.0)[0]
+            if np.asarray(v2).tobytes() != np.asarray(keep).tobytes():
+                probs.append('after the caller overwrote the returned array the same call returns %s instead of %s' % (np.ravel(v2).tolist(), np.ravel(keep).tolist()))
+            # re-entrant: f evaluates the same object at another point on its third evaluation
+            cnt = [0]
+            holder = {}
+
+            def g(zz, s=1.0, t=0.0):
+                cnt[0] += 1
+                if cnt[0] == 3 and 'obj' in holder:
+                    holder['obj'](P - 1.25 if cls == 'Residue' else np.array([P - 1.25]), 1.0)
+                return f(zz, s, t)
+            R1 = mk(g)
+            holder['obj'] = R1
+            r1 = R1(z, 1.0)[0]
+            r2 = mk(f)(z, 1.0)[0]
+            if not np.allclose(np.asarray(r1), np.asarray(r2), rtol=1e-9, atol=1e-12, equal_nan=True):
+                probs.append('a function that evaluates the same object at another point part-way makes the outer call return %s instead of %s' % (np.ravel(r1).tolist(), np.ravel(r2).tolist()))
+    except Exception as ex:
+        probs.append('raised %s: %s' % (type(ex).__name__, str(ex)[:140]))
+    return probs
+
+
 def run_residue(case):
     vlib.use_repo()
     from numdifftools.limits import Residue
@@ -211,6 +262,12 @@ def run(tier, rep):
                 # the spiral winds in and arrives from the side the method names
                 if (np.abs(np.imag(allo)) <= 1e-12 * np.abs(allo)).all() or not (np.sign(np.real(last)) == sgn).all():
                     rep.violation('sign-or-path', dict(case=name, offsets=[[x.real, x.imag] for x in allo[:6]]), '%s: spiral path must leave the real axis and arrive from %s; last offsets %s' % (name, cfg_['method'], last.tolist()))
+    # histories on one object
+    hcases = [(cls, method, path, P) for cls in ('Limit', 'Residue') for method in ('above', 'below') for path in ('radial', 'spiral') for P in (0.0, 1.5, 0.5 + 0.5j)]
+    for hc, probs in zip(hcases, vlib.pool_map(run_history, hcases, chunksize=2)):
+        n += 1
+        for pr in probs[:1]:
+            rep.violation('history:%s' % hc[0], dict(case=list(map(str, hc))), '%s %s/%s at %r reused: %s' % (hc[0], hc[1], hc[2], hc[3], pr))
     # Residue
     rcases = []
     for pi in range(len(PROGS)):
